@@ -575,7 +575,7 @@ Section Project.
 
   Lemma in_select_keys : forall items r k,
     In k (select_keys items r) <->
-    (exists e, In (IExpr e k) items) \/ (In IStar items /\ In k (keys r)).
+    (exists e, In (IExpr e k) items) \/ (In (@IStar Q) items /\ In k (keys r)).
   Proof.
     intros items r k. unfold select_keys. rewrite in_flat_map. split.
     - intros [it [Hin Hk]]. destruct it as [|e name]; cbn [item_names] in Hk.
@@ -633,3 +633,81 @@ Section MapM.
       inversion H. destruct (IH _ _ _ Hm) as [b [Hn Hb]]. exists b. split; [exact Hn|exact Hb].
   Qed.
 End MapM.
+
+Section ExecSelect.
+  Variable E : env stmt.
+
+  (* ExecSelect takes the per-row branch *)
+  Definition per_row (s : select stmt) : bool :=
+    negb ((match s_group s with [] => true | _ => false end) && all_aggregate (s_items s)).
+
+  (* the per-row function of ExecSelect *)
+  Definition select_row (s : select stmt) (cur : value) : res value :=
+    match cur with
+    | VArr _ => Ok cur
+    | VObj kv => let! r := select_expr E kv (s_items s) [] in Ok (VObj r)
+    | _ => Err
+    end.
+
+  Lemma exec_select_per_row : forall s rows,
+    per_row s = true -> exec_select E s rows = mapM (select_row s) rows.
+  Proof.
+    intros s rows Hp. unfold exec_select, per_row in *. apply negb_true_iff in Hp. rewrite Hp.
+    reflexivity.
+  Qed.
+
+  Lemma c02_not_all_aggregate : forall (items : list (sel_item stmt)),
+    (forall e name, In (IExpr e name) items -> omit_free e = true) -> all_aggregate items = false.
+  Proof.
+    intros items H. destruct items as [|it rest]; [reflexivity|].
+    cbn [all_aggregate forallb]. destruct it as [|e name]; [reflexivity|].
+    specialize (H e name (or_introl eq_refl)). destruct e; try discriminate H; reflexivity.
+  Qed.
+
+  (* no other row's data: position i depends on row i only *)
+  Theorem exec_select_local : forall s l1 r l2 out,
+    per_row s = true -> exec_select E s (l1 ++ r :: l2) = Ok out ->
+    exists o, nth_error out (List.length l1) = Some o /\ exec_select E s [r] = Ok [o].
+  Proof.
+    intros s l1 r l2 out Hp H. rewrite exec_select_per_row in H by exact Hp.
+    rewrite exec_select_per_row by exact Hp. eapply mapM_local. exact H.
+  Qed.
+
+  Variable den : srow -> expr stmt -> res value.
+
+  (* the specification's per-row function *)
+  Definition spec_row (items : list (sel_item stmt)) (cur : value) : res value :=
+    match cur with
+    | VObj kv => let! o := project den items kv in Ok (VObj o)
+    | _ => Err
+    end.
+
+  Definition rows_agree (items : list (sel_item stmt)) (rows : list value) : Prop :=
+    forall kv, In (VObj kv) rows -> items_agree E den items kv.
+
+  Theorem exec_select_spec : forall s rows,
+    per_row s = true -> forallb is_obj rows = true -> rows_agree (s_items s) rows ->
+    exec_select E s rows = mapM (spec_row (s_items s)) rows.
+  Proof.
+    intros s rows Hp Hobj Hag. rewrite exec_select_per_row by exact Hp.
+    apply mapM_ext_in. intros cur Hin.
+    rewrite forallb_forall in Hobj. specialize (Hobj _ Hin).
+    destruct cur; try discriminate Hobj. cbn [select_row spec_row].
+    rewrite (select_expr_project_nil stmt E den) by (apply Hag; exact Hin). reflexivity.
+  Qed.
+
+  Theorem exec_select_shape : forall s rows out,
+    per_row s = true -> forallb is_obj rows = true -> rows_agree (s_items s) rows ->
+    exec_select E s rows = Ok out ->
+    List.length out = List.length rows /\
+    Forall2 (fun r o => exists kv okv, r = VObj kv /\ project den (s_items s) kv = Ok okv /\ o = VObj okv)
+            rows out.
+  Proof.
+    intros s rows out Hp Hobj Hag H. rewrite exec_select_spec in H by assumption.
+    split; [eapply mapM_length; exact H|].
+    apply mapM_forall2 in H. eapply Forall2_impl; [|exact H].
+    intros r o Hr. cbn beta in Hr. destruct r; cbn [spec_row] in Hr; try discriminate Hr.
+    destruct (project den (s_items s) kvs) as [okv| | |] eqn:Hpj; cbn [bind] in Hr; try discriminate Hr.
+    inversion Hr. eauto.
+  Qed.
+End ExecSelect.
